@@ -211,7 +211,7 @@ func runC05(x *core.Ctx) {
 	if !mq.VerifInstrumented {
 		panic("C05 needs the instrumented build")
 	}
-	maxBody := 5
+	maxBody := 4
 	if x.Thorough() {
 		maxBody = 6
 	}
@@ -250,7 +250,8 @@ func runC05(x *core.Ctx) {
 		}
 		return true
 	}
-	enumRaw(x, maxBody, run)
+	// the long repeated sections first (few inputs, reach deep), the raw
+	// families afterwards
 
 	// long repeated sections
 	type pair struct{ small, big int64 }
@@ -314,6 +315,7 @@ func runC05(x *core.Ctx) {
 			}
 		}
 	}
+	enumRaw(x, maxBody, run)
 	for k, v := range maxSteps {
 		x.R.Extra[k] = v
 	}
